@@ -29,6 +29,8 @@ struct Item {
     canon: bool,
     /// for C04: the case payload types
     cases: Vec<Option<Type>>,
+    /// thorough tier: use length bound 3 for this item
+    deep3: bool,
 }
 
 struct Args {
@@ -102,7 +104,9 @@ fn val_json(tb: &term::TB, v: &spec::Val, m: &term::Model) -> serde_json::Value 
 }
 
 fn run_item(item: &Item, resolve: &Resolve, sizes: &SizeAlign, args: &Args, idx: usize) -> serde_json::Value {
-    let l = args.l.unwrap_or(if args.tier == "thorough" { 3 } else { 2 });
+    // thorough: length bound 3 for types that nest containers at most twice
+    // (the cubic blow-up of deeper nests does not finish), 2 otherwise
+    let l = args.l.unwrap_or(if args.tier == "thorough" && item.deep3 { 3 } else { 2 });
     let cx = Ctx { resolve, sizes, p: item.p, l, canon: item.canon, mutate: args.mutate_oracle };
     let ty = item.func.params.first().map(|p| p.ty);
     let built = match (item.prop, item.family.as_str()) {
@@ -319,6 +323,7 @@ fn main() {
                     p,
                     canon,
                     cases: vec![],
+                    deep3: ty.container_depth() <= 2,
                 };
                 match args.prop.as_str() {
                     "C01" => {
@@ -373,6 +378,7 @@ fn main() {
                         p,
                         canon,
                         cases: vec![],
+                        deep3: false,
                     });
                 }
             }
